@@ -14,7 +14,7 @@ ID = 'C14'
 LEVEL = 'exploration'
 RULE = (
     'Finite lattice: every subset of 4..6 (thorough: 4..7) knots of a '
-    '7-point level menu x 4 value patterns (rising, flat, falling, zig-zag) '
+    '7-point level menu x 5 value patterns (rising, flat, falling, zig-zag, step with overshoot) '
     'x integration limits drawn from the position classes {far below, just '
     'below, first knot, inside each segment, each knot, last knot, just '
     'above, far above}: all ordered pairs and all ordered triples, through '
@@ -36,12 +36,15 @@ PATTERNS = {
     'flat': lambda i, n: 0.25,
     'falling': lambda i, n: 0.9 - 0.7 * i / (n - 1),
     'zigzag': lambda i, n: 0.2 + 0.5 * (i % 2) + 0.03 * i,
+    # a step: the interpolating cubic rings below 0 and above 1 although
+    # every knot value is a valid specific yield
+    'step': lambda i, n: 0.02 if i < n // 2 + 1 else 0.98,
 }
 _SETS = {}
 
 
 def BOUND(tier):
-    return ('%s knot subsets x 4 value patterns x all ordered pairs and '
+    return ('%s knot subsets x 5 value patterns x all ordered pairs and '
             'triples of 2K+3 limit positions'
             % ('4..6-element' if tier == 'quick' else '4..7-element'))
 
@@ -89,6 +92,10 @@ def run_case(case):
     values = [PATTERNS[case['pattern']](i, n) for i in range(n)]
     viol = []
     try:
+        # decoy built first: no state may leak between instances
+        sy_mod.create_specific_yield_function(
+            {'type': 'spline', 'zeta_knots_mm': [k - 7.0 for k in knots],
+             'sy_knots': list(values)[::-1]}).integrate(knots[0], knots[-1])
         sy = sy_mod.create_specific_yield_function(
             {'type': 'spline', 'zeta_knots_mm': list(knots),
              'sy_knots': list(values)})
@@ -102,14 +109,14 @@ def run_case(case):
         if case['a'] == 0:
             # knot values and constant extrapolation, once per (set, pattern)
             for k, v in zip(knots, values):
-                if abs(float(sy(k)) - v) > 1e-12:
+                if not abs(float(sy(k)) - v) <= 1e-12:
                     viol.append(('knot-value', 'Sy(%r) = %r, knot value %r'
                                  % (k, float(sy(k)), v)))
             for x, v in ((knots[0] - 0.5, values[0]),
                          (knots[0] - 1000.0, values[0]),
                          (knots[-1] + 0.5, values[-1]),
                          (knots[-1] + 1000.0, values[-1])):
-                if abs(float(sy(x)) - v) > 1e-12:
+                if not abs(float(sy(x)) - v) <= 1e-12:
                     viol.append(('not-constant-outside',
                                  'Sy(%r) = %r, end knot value %r'
                                  % (x, float(sy(x)), v)))
@@ -119,12 +126,12 @@ def run_case(case):
             iba = sy.integrate(b, a)
             tol = 1e-10 * (abs(b - a) + 1.0) * scale
             n_eval += 1
-            if abs(iab + iba) > tol:
+            if not abs(iab + iba) <= tol:
                 viol.append(('not-antisymmetric',
                              'I(%r,%r) = %r but I(%r,%r) = %r'
                              % (a, b, iab, b, a, iba)))
             ref = hydraulics.piecewise_gl2(sy, a, b, knots)
-            if abs(iab - ref) > tol:
+            if not abs(iab - ref) <= tol:
                 viol.append(('integral-is-not-the-area',
                              'I(%r,%r) = %r, area under the same function '
                              '%r' % (a, b, iab, ref)))
@@ -133,7 +140,7 @@ def run_case(case):
                 iac = sy.integrate(a, c)
                 tol3 = 1e-10 * (abs(b - a) + abs(c - b) + 1.0) * scale
                 n_eval += 1
-                if abs(iab + ibc - iac) > tol3:
+                if not abs(iab + ibc - iac) <= tol3:
                     viol.append((
                         'not-additive',
                         'I(%r,%r) + I(%r,%r) = %r but I(%r,%r) = %r'
